@@ -3,7 +3,8 @@
 proof:          lean/MPilot/Props/C04.lean  (fuzzy_range: all 14 producers, no hypothesis on inputs or parameters)
 correspondence: real `execute` of the 14 producers vs the model's `exec`, parameters deliberately outside [-1, 1]
 oracle:         min/max of the non-missing cells of every implementation result; the same when the producers are commands of plug-in classes
-                derived from the built-in fuzzy commands (directly and inside Programs)
+                derived from the built-in fuzzy commands (directly and inside Programs); every fuzzy result again after each of its consumers has run
+                (every data command, CvtFromFuzzy, the writers; whole Programs)
 """
 from .. import common, eems
 
@@ -135,6 +136,142 @@ def after_write(ctx, count):
                          {"results": [repr(x.tolist()) for x in arrs], "shape": shape})
                 break
 
+def after_consumers(ctx):
+    """time of check and time of use: a fuzzy result that was within [-1, +1] when it was returned is the command's result for as long as the model lives - it is
+    read again by every later consumer, written, printed.  So every fuzzy result is range-checked again AFTER each of its consumers has run: the result of each
+    of the 14 producers (floating fields as the real bodies return them, with and without missing cells, on vectors and grids) is consumed by every data command
+    (fuzzy operators with the field first / last / listed twice among other fuzzy results, CvtFromFuzzy onto target ranges far outside the fuzzy range, arithmetic
+    and conversion commands) and by the writers (NetCDF / CSV EEMSWrite, PrintVars); then as whole Programs in which every producer has several consumers"""
+    import contextlib
+    import io
+    import os
+    import warnings
+    import numpy
+    from collections import OrderedDict
+    from mpilot.arguments import Argument, ListArgument
+    from mpilot.libraries.eems.netcdf.io import EEMSWrite as NcWrite
+    from mpilot.libraries.eems.csv.io import EEMSWrite as CsvWrite
+    from mpilot.libraries.eems.basic import PrintVars
+    from . import c18
+    from ..eems import Case
+    rng = eems._rng2(ctx)
+    tmp = common.tmpdir("mpv_c04c_")
+    back = [{"TrueThreshold": 100, "FalseThreshold": 0}, {"TrueThreshold": 0, "FalseThreshold": 250.0}, {"TrueThreshold": -5, "FalseThreshold": 5}, {"TrueThreshold": 3, "FalseThreshold": 2.5},
+            {"TrueThreshold": 1, "FalseThreshold": -1}, {"TrueThreshold": 0.5, "FalseThreshold": -0.5}]
+
+    def beyond(a):
+        cells = numpy.ma.getdata(a)[~numpy.ma.getmaskarray(a)] if isinstance(a, numpy.ndarray) else numpy.array([numpy.nan])
+        with numpy.errstate(all="ignore"):
+            return cells[~((cells >= -1) & (cells <= 1))]
+
+    for shape in ((12,), (3, 4), (2, 3, 2)):
+        raw = numpy.ma.array(numpy.array([0.0, 1.0, 2.0, 3.0, 4.0, 5.0, 6.0, 7.0, 8.0, 9.0, 10.0, 2.5]).reshape(shape), mask=numpy.array([False] * 4 + [True] + [False] * 7).reshape(shape))
+        full = numpy.ma.array(numpy.array([10.0, 0.0, 7.5, 2.0, 4.0, 6.0, 5.0, 3.0, 8.0, 1.0, 9.0, 0.5]).reshape(shape))         # nothing missing, no mask array
+        tpl = os.path.join(tmp, "tpl%d.nc" % len(shape))
+        c18.make_template(tpl, shape, rng)
+        lo = eems.run_impl(Case("CvtToFuzzy", {"TrueThreshold": 8, "FalseThreshold": 1}, [raw]))["result"]
+        hi = eems.run_impl(Case("CvtToFuzzy", {"TrueThreshold": 2, "FalseThreshold": 9}, [full]))["result"]
+        made = [("CvtToFuzzy", {"TrueThreshold": 10, "FalseThreshold": 0}, [raw]), ("CvtToFuzzy", {}, [full]), ("CvtToFuzzyZScore", {"TrueThresholdZScore": 1.5, "FalseThresholdZScore": -1.5}, [raw]),
+                ("CvtToFuzzyCat", {"RawValues": [1, 2, 9, 7.5], "FuzzyValues": [1, -1, 0.5, 0.25], "DefaultFuzzyValue": -0.75}, [full]), ("CvtToFuzzyCurve", {"RawValues": [0, 5, 10], "FuzzyValues": [-1, 0.5, 1]}, [raw]),
+                ("CvtToFuzzyMeanToMid", {"IgnoreZeros": False, "FuzzyValues": [-1, -0.5, 0, 0.5, 1]}, [full]), ("CvtToFuzzyCurveZScore", {"ZScoreValues": [-1, 0, 1], "FuzzyValues": [-1, 0.25, 1]}, [raw]),
+                ("CvtToBinary", {"Threshold": 4, "Direction": "LowToHigh"}, [raw]), ("FuzzyUnion", {}, [lo, hi]), ("FuzzyWeightedUnion", {"Weights": [3, 1]}, [lo, hi]),
+                ("FuzzySelectedUnion", {"TruestOrFalsest": "Truest", "NumberToConsider": 1}, [lo, hi]), ("FuzzyOr", {}, [lo, hi]), ("FuzzyAnd", {}, [hi, lo]), ("FuzzyXOr", {}, [lo, hi]), ("FuzzyNot", {}, [lo])]
+        for pcmd, pparams, pins in made:
+            pcase = Case(pcmd, pparams, pins)
+            po = eems.run_impl(pcase)
+            if po["status"] != "ok" or not isinstance(po["result"], numpy.ndarray):
+                ctx.fail("%s on a field of shape %r fails: %s" % (pcmd, shape, eems.impl_summary(po)[:80]), pcase.describe())
+                continue
+            res = po["result"]
+            if beyond(res).size:
+                continue                                     # (reported by the stream's oracle on the result as returned)
+            others = [x for x in (lo, hi) if x is not res]
+            keep = res.copy()
+            consumers = []
+            for cmd in eems.COMMANDS:
+                how = eems.COMMANDS[cmd][1]
+                lists = [[res]] if how == "one" else [[res, others[0]], [others[-1], res]] if how == "ab" else [[res], [res, others[0]], [others[0], others[-1], res], [res, others[0], res]]
+                if cmd == "FuzzyXOr":
+                    lists = lists[1:]
+                for ins in lists:
+                    for params in (back if cmd == "CvtFromFuzzy" else [eems.gen_params(rng, cmd, ins, "valid")]):
+                        consumers.append((cmd, params, ins))
+            for wr in ("netcdf", "netcdf-last", "csv", "print"):
+                consumers.append((wr, {}, [res, others[0]] if wr != "netcdf-last" else [others[0], res]))
+            for cmd, params, ins in consumers:
+                try:
+                    with contextlib.redirect_stdout(io.StringIO()), warnings.catch_warnings(), numpy.errstate(all="ignore"):
+                        warnings.simplefilter("ignore")
+                        prods = [eems.Producer(a, "f%d" % j, True) for j, a in enumerate(ins)]
+                        if cmd.startswith("netcdf"):
+                            outp = os.path.join(tmp, "out.nc")
+                            if os.path.exists(outp):
+                                os.remove(outp)
+                            NcWrite("W", []).execute(OutFileName=outp, OutFieldNames=prods, DimensionFileName=tpl, DimensionFieldName="elev")
+                        elif cmd == "csv":
+                            CsvWrite("W", []).execute(OutFileName=os.path.join(tmp, "out.csv"), OutFieldNames=prods)
+                        elif cmd == "print":
+                            PrintVars("P", []).execute(InFieldNames=prods)
+                        else:
+                            eems.execute_on(cmd, params, ins)
+                except Exception:            # noqa (a consumer that refuses the field - a CSV table of a grid - consumed nothing)
+                    ctx.count("after_consumers_refused")
+                ctx.count("after_consumers_checks")
+                for what, a in [("the result of %s" % pcase.spec(), res)] + [("another fuzzy result consumed with it (CvtToFuzzy)", x) for x in others]:
+                    bad = beyond(a)
+                    if bad.size:
+                        ctx.fail("%s was within [-1, 1] when it was returned; after %s%s had consumed it (input no. %r of %d) it holds %r at non-missing cells" % (
+                            what, cmd, "(%s)" % ", ".join("%s=%r" % kv for kv in sorted(params.items())) if params else "", [j for j, x in enumerate(ins) if x is a], len(ins), bad.tolist()[:4]),
+                            dict(pcase.describe(), consumer=cmd, consumer_params={k_: repr(v) for k_, v in params.items()}, returned=repr(keep.tolist()), now=repr(a.tolist())))
+                        numpy.ma.getdata(res)[...] = numpy.ma.getdata(keep)          # as returned again, for the consumers that follow
+                        if a is not res:
+                            return
+                        break
+            ctx.case("after-consumers %r %s" % (shape, pcase.line()), sample=None)
+    # whole Programs: every one of the 14 producers has a CvtFromFuzzy, a FuzzyNot, an operator and the writer as consumers, listed before or after one another
+    al = eems.arrays_lib()
+    prod_steps = [("Lo", "CvtToFuzzy", {"InFieldName": "Raw", "TrueThreshold": 8, "FalseThreshold": 1}), ("Hi", "CvtToFuzzy", {"InFieldName": "Raw", "TrueThreshold": 2, "FalseThreshold": 9}),
+                  ("Z", "CvtToFuzzyZScore", {"InFieldName": "Raw", "TrueThresholdZScore": 1.5, "FalseThresholdZScore": -1.5}), ("Cat", "CvtToFuzzyCat", {"InFieldName": "Raw", "RawValues": [1, 2, 9], "FuzzyValues": [1, -1, 0.5], "DefaultFuzzyValue": -0.75}),
+                  ("Curve", "CvtToFuzzyCurve", {"InFieldName": "Raw", "RawValues": [0, 5, 10], "FuzzyValues": [-1, 0.5, 1]}), ("Mid", "CvtToFuzzyMeanToMid", {"InFieldName": "Raw", "IgnoreZeros": False, "FuzzyValues": [-1, -0.5, 0, 0.5, 1]}),
+                  ("CurveZ", "CvtToFuzzyCurveZScore", {"InFieldName": "Raw", "ZScoreValues": [-1, 0, 1], "FuzzyValues": [-1, 0.25, 1]}), ("Bin", "CvtToBinary", {"InFieldName": "Raw", "Threshold": 4, "Direction": "LowToHigh"}),
+                  ("Union", "FuzzyUnion", {"InFieldNames": ["Lo", "Hi"]}), ("Wtd", "FuzzyWeightedUnion", {"InFieldNames": ["Lo", "Hi"], "Weights": [3, 1]}),
+                  ("Sel", "FuzzySelectedUnion", {"InFieldNames": ["Lo", "Hi"], "TruestOrFalsest": "Falsest", "NumberToConsider": 1}), ("Or", "FuzzyOr", {"InFieldNames": ["Lo", "Hi"]}),
+                  ("And", "FuzzyAnd", {"InFieldNames": ["Hi", "Lo"]}), ("XOr", "FuzzyXOr", {"InFieldNames": ["Lo", "Hi"]}), ("Not", "FuzzyNot", {"InFieldName": "Lo"})]
+
+    def arg(k, v):
+        return ListArgument(k, list(v), 3, [3] * len(v)) if isinstance(v, list) else Argument(k, v, 3)
+    for variant in range(3):
+        al.HOLD.clear()
+        al.HOLD["Raw"] = numpy.ma.array([0.0, 1.0, 2.0, 3.0, 4.0, 5.0, 6.0, 7.0, 8.0, 9.0, 10.0], mask=[False] * 5 + [variant != 1] + [False] * 5)
+        t, f = [(100, 0), (0, 40.0), (-3, 7)][variant]
+        cons = []
+        for nm, _c, _a in prod_steps:
+            cs = [("Back" + nm, "CvtFromFuzzy", {"InFieldName": nm, "TrueThreshold": t, "FalseThreshold": f}), ("Neg" + nm, "FuzzyNot", {"InFieldName": nm}),
+                  ("With" + nm, "FuzzyOr", {"InFieldNames": [nm, "Lo"]})]
+            cons += cs if variant != 2 else cs[::-1]
+        steps = [("Raw", al.HeldData, {})] + [(nm, eems.command_class(c), a) for nm, c, a in (prod_steps + cons if variant != 1 else cons + prod_steps)]
+        steps.append(("Shown", PrintVars, {"InFieldNames": [nm for nm, _c, _a in prod_steps], "OutFileName": os.path.join(tmp, "shown.txt")}))
+        desc = {"program": ["%s = %s(%s)" % (nm, cls.__name__, ", ".join("%s = %r" % kv for kv in a.items())) for nm, cls, a in steps], "Raw": repr(al.HOLD["Raw"].tolist())}
+        p = eems.new_pipeline_program()
+        try:
+            with warnings.catch_warnings(), numpy.errstate(all="ignore"):
+                warnings.simplefilter("ignore")
+                for nm, cls, a in steps:
+                    p.add_command(cls, nm, OrderedDict((k, arg(k, v)) for k, v in a.items()), lineno=1)
+                p.run()
+        except Exception as e:
+            ctx.fail("a Program in which every fuzzy result has several consumers (CvtFromFuzzy among them) fails: %s %s" % (type(e).__name__, str(e)[:100]), desc)
+            continue
+        ctx.case("after-consumers-program %d" % variant, sample=None)
+        for nm, cls, a in steps:
+            if cls.__module__.startswith("mpilot.libraries.eems.") and getattr(cls, "is_fuzzy", False):
+                ctx.count("after_consumers_program_results")
+                bad = beyond(p.commands[nm].result)
+                if bad.size:
+                    ctx.fail("after the whole Program has run, the result %s of the fuzzy command %s holds %r at non-missing cells (every fuzzy result is consumed by CvtFromFuzzy(%r, %r), "
+                             "FuzzyNot and FuzzyOr)" % (nm, cls.__name__, bad.tolist()[:4], t, f), desc)
+                    break
+
 
 def derived_producers(ctx):
     """user libraries EXTEND built-in commands: a plug-in class derived from CvtToFuzzy, FuzzyOr, FuzzyUnion ... (to inherit its flags, its parameters, its
@@ -232,6 +369,7 @@ def run(ctx):
     eems.run_stream(ctx, model, eems.gen_chains(ctx.rng, ctx.budget(60, 2500), chain_consumers), "exec:fuzzy-chains", on_result=oracle(ctx))
     eems.run_stream(ctx, model, directed_chains(), "exec:fuzzy-chains-directed", on_result=oracle(ctx))
     after_write(ctx, ctx.budget(20, 600))
+    after_consumers(ctx)
     derived_producers(ctx)
     if ctx.disagreements and not ctx.failures:
         # failing-input search: enlarged budget focused on the commands whose correspondence broke
